@@ -279,7 +279,7 @@ Qed.
 (* If check_C20 accepts a case line (code 0 or 1) then the line was decoded COMPLETELY:
      line = 20 :: routine id :: nargs :: mutated[nargs] ++ [det; conc; panics; call; seed; size]
    with every flag exactly 0 or 1, and EITHER it is a line of one of the harness's canaries
-   (ids 40..44) which is flagged exactly as [canary_expect] demands, OR
+   (ids 40..45) which is flagged exactly as [canary_expect] demands, OR
    - the routine id is in the table of Model/Heap.v and is not a canary id,
    - there is one flag per array argument of the routine,
    - every argument whose flag is set lies in the footprint that the PROVED effect analysis
